@@ -333,8 +333,6 @@ class Ev:
         if op == "quicksum":
             items = [self.ev(x) for x in n["items"]]
             before = [observe(x) if hasattr(x, 'variables') else None for x in items]
-            if items and type(items[0]).__name__ == 'ConstraintView':
-                self.flags["quicksum_first_constraint_view"] = True
             r = dimod.quicksum(items)
             for x, bfr in zip(items, before):
                 if bfr is not None and observe(x) != bfr:
@@ -536,8 +534,6 @@ def run_case(c):
     ops = set()
     tree_feats(c["tree"], ops)
     observed = dict(observed, ops=sorted(ops), forms=forms)
-    if feats.get("result") == "TypeError" and E.flags.get("quicksum_first_constraint_view") and "pickling" in str(observed.get("exc")):
-        feats = {"quicksum_first_constraint_view": True}
     if feats.get("narrow_dtype_bound_limit"):
         feats = {"narrow_dtype_bound_limit": True}
     if feats.get("narrow_dtype_bound_changed"):
